@@ -9,4 +9,5 @@ def check(ctx, rep):
     cache.cache_2_3(ctx, rep, roles)
     cache.cache_5(ctx, rep)
     cache.cache_6_7(ctx, rep)
+    cache.cache_9_10(ctx, rep)   # entries are pickled verbatim; the save does not depend on the cache file that is already there
     rep.note('Not decided: equality of the returned tree with a fresh parse.')
